@@ -320,6 +320,20 @@ def _redundant_pars(src, ploc):
         return False
 
 
+def _pars_allowed(src, loc):
+    """does the program with parentheses put around `loc` parse to the same structure?"""
+    if not loc:
+        return False
+    lines = src.split('\n')
+    ln, col, eln, ecol = loc[:4]
+    try:
+        lines[eln] = lines[eln][:ecol] + ')' + lines[eln][ecol:]
+        lines[ln] = lines[ln][:col] + '(' + lines[ln][col:]
+        return ast.dump(ast.parse('\n'.join(lines))) == ast.dump(ast.parse(src))
+    except (SyntaxError, IndexError):
+        return False
+
+
 def pars_steps(sw, paths, quick, rnd):
     """C02: par() / unpar() are edits too - afterwards every query must answer as on a fresh parse of the new source
     (which must exist: the source has to parse).  Every parenthesised expression is unparenthesised, sampled bare
@@ -372,6 +386,8 @@ def pars_steps(sw, paths, quick, rnd):
         except SyntaxError as e:
             if opname == 'unpar()' and not _redundant_pars(sw.src, n0loc):
                 continue
+            if opname != 'unpar()' and not _pars_allowed(sw.src, n0loc):
+                continue   # par(force=True) where the grammar allows no parentheses (type alias name, a[b:c, d], a[*b])
             sw.fail('C02', key + ':unparsable', f'after {opname} at {path} the source no longer parses ({e.msg}): no fresh '
                     'tree exists to agree with', src_after=r.src[:300])
             continue
